@@ -1134,8 +1134,20 @@ fn load_untagged(ctx: &mut Ctx, kind: &str, text: &str, mutation: &str, r: &mut 
 
 fn load_tagged(ctx: &mut Ctx, kind: &str, text: &str, mutation: &str, r: &mut Rng) {
     let inp = || json!({"kind": kind, "entry": "tagged from_json", "mutation": mutation, "json": crate::util::clip(&text, 1500)});
+    // the function Python calls (it also composes the error message), then the container behind it
+    let inp_py = || json!({"kind": kind, "entry": "Python-exposed from_json", "mutation": mutation, "json": crate::util::clip(&text, 1500), "char_boundaries_off": (1..text.len().min(200)).filter(|i| !text.is_char_boundary(*i)).take(12).collect::<Vec<_>>()});
+    let via_py = no_panic(ctx, "from_json(python-exposed)", guarded(|| VerifObj::py_from_json(text).ok()), inp_py);
+    if let Some(p) = via_py.as_ref() {
+        ctx.class(&format!("tagged-via-python:{}{}", if p.is_some() { "loaded" } else { "rejected" }, if p.is_none() && !text.is_ascii() { ":non-ascii-text" } else { "" }));
+    }
     if let Some(res) = no_panic(ctx, "from_json(tagged)", guarded(|| VerifObj::from_json(text).ok()), inp) {
         ctx.class(&format!("tagged:{}", if res.is_some() { "loaded" } else { "rejected" }));
+        if let Some(p) = via_py.as_ref() {
+            ctx.asserted(1);
+            if p.is_some() != res.is_some() || p.as_ref().map(|o| o.kind()) != res.as_ref().map(|o| o.kind()) {
+                ctx.violation(&format!("C20|python-from_json-differs-from-container|{}", kind), json!({"input": inp(), "python-exposed": p.as_ref().map(|o| o.kind()), "container": res.as_ref().map(|o| o.kind())}));
+            }
+        }
         if let Some(o) = res {
             let bad: Option<String> = match guarded(|| {
                 if let Some(d) = o.as_dual() {
@@ -1288,13 +1300,16 @@ impl Prop for C20 {
         }
         v.push("tagged:loaded".into());
         v.push("tagged:rejected".into());
+        v.push("tagged-via-python:loaded".into());
+        v.push("tagged-via-python:rejected".into());
+        v.push("tagged-via-python:rejected:non-ascii-text".into());
         v
     }
     fn min_evaluations(&self, tier: Tier) -> u64 {
         tier.pick(300_000, 10_000_000)
     }
     fn rule(&self) -> String {
-        "(a) Dual/Dual2::try_new(_from), Ccy / FXPair / FXRate / FXRates::try_new, NamedCal::try_new, get_calendar_by_name with boundary and random arguments (length mismatches, duplicate names, empty lists, 0-8 character and multi-byte currency codes, random quote multigraphs incl. zero / negative rates, calendar strings over names , | spaces garbage); every Ok is checked against the type's shape invariants and against an independent validity oracle. (b) add_bus_days, lag, add_days for ALL 256 day counts x both flags, roll and add_months for offsets landing in 1970-2200 x roll days 1-31 x every RollDay / Modifier, on the calendar zoo. (c) csolve with arbitrary site / data lengths, repeated, end-point-only and out-of-domain sites, left_n / right_n up to k+2, both allow_lsq, evaluation before csolve, index_value without base, get_roll(Unspecified); the typed spline evaluators ppdnev_single_dual / _dual2 on all three spline types (an order-mismatched abscissa must give Err) and mapped_value for f64 / Dual / Dual2 abscissae; bus_date_range / cal_date_range for any two dates in either order; Curve::set_ad_order sequences with index_value after each. (a') on every accepted market: FXRates::update with quoted, inverted, member-currency-cross and foreign pairs, zero / negative / hostile / dual values, empty and duplicated lists, and FXRates::set_ad_order switches, shape invariants re-checked after every step. (d) valid JSON documents of every kind mutated structurally (delete / duplicate a field, change a type, shrink / grow an array, swap values, hostile replacements, targeted edits of consistency fields, truncation) and loaded through the per-type and the tagged entry points. Monitor: catch_unwind around every call + invariant checker on every Ok; worker processes with breadcrumbs observe aborts. distinct_nontrivial = distinct (kind, mutation, text) / generated inputs.".into()
+        "(a) Dual/Dual2::try_new(_from), Ccy / FXPair / FXRate / FXRates::try_new, NamedCal::try_new, get_calendar_by_name with boundary and random arguments (length mismatches, duplicate names, empty lists, 0-8 character and multi-byte currency codes, random quote multigraphs incl. zero / negative rates, calendar strings over names , | spaces garbage); every Ok is checked against the type's shape invariants and against an independent validity oracle. (b) add_bus_days, lag, add_days for ALL 256 day counts x both flags, roll and add_months for offsets landing in 1970-2200 x roll days 1-31 x every RollDay / Modifier, on the calendar zoo. (c) csolve with arbitrary site / data lengths, repeated, end-point-only and out-of-domain sites, left_n / right_n up to k+2, both allow_lsq, evaluation before csolve, index_value without base, get_roll(Unspecified); the typed spline evaluators ppdnev_single_dual / _dual2 on all three spline types (an order-mismatched abscissa must give Err) and mapped_value for f64 / Dual / Dual2 abscissae; bus_date_range / cal_date_range for any two dates in either order; Curve::set_ad_order sequences with index_value after each. (a') on every accepted market: FXRates::update with quoted, inverted, member-currency-cross and foreign pairs, zero / negative / hostile / dual values, empty and duplicated lists, and FXRates::set_ad_order switches, shape invariants re-checked after every step. (d) valid JSON documents of every kind mutated structurally (delete / duplicate a field, change a type, shrink / grow an array, swap values, hostile replacements, targeted edits of consistency fields, truncation) and loaded through the per-type entry points, the tagged container and the Python-exposed from_json function itself (which must agree with the container on accept / reject and kind). Monitor: catch_unwind around every call + invariant checker on every Ok; worker processes with breadcrumbs observe aborts. distinct_nontrivial = distinct (kind, mutation, text) / generated inputs.".into()
     }
     fn assumptions(&self) -> Vec<String> {
         vec![
